@@ -26,7 +26,11 @@ def gen_cases(ck):
                 damage[i] = rng.choice(['missing', 'short', 'long'])
         kind = rng.choice(['file', 'file', 'file', 'single-at-dir'] if single else ['file', 'file', 'file', 'multi-at-file', 'extra'])
         cb = rng.choice([None, 0, 0] + list(range(1, nf + 1)))
-        out.append((sizes, single, damage, kind, cb))
+        # object history: the same Torrent object has already checked this path, then one recorded length is edited in place
+        pre = None
+        if kind in ('file', 'extra') and rng.random() < 0.3:
+            pre = (rng.randrange(nf), rng.choice([1, -1, 1000]))
+        out.append((sizes, single, damage, kind, cb, pre))
     return out
 
 
@@ -50,6 +54,26 @@ def build(root, sizes, single, damage, kind):
         if kind == 'extra' and not single:
             open(os.path.join(cp, 'extra-file'), 'wb').write(b'extra')
     return t, cp, on_disk
+
+
+def apply_pre(t, cp, sizes, single, pre):
+    """-> the recorded sizes after the history"""
+    if pre is None:
+        return tuple(sizes)
+    try:
+        t.verify_filesize(cp, callback=lambda *a: None)
+    except Exception:  # noqa
+        pass
+    i, delta = pre
+    new = max(0, sizes[i] + delta)
+    if -(-(sum(sizes) - sizes[i] + new) // L) != -(-sum(sizes) // L) or sum(sizes) - sizes[i] + new == 0:
+        return tuple(sizes)          # the edit would invalidate the torrent (piece count): keep the lengths (validate() must pass, see level_note)
+    info = t.metainfo['info']
+    if single:
+        info['length'] = new
+    else:
+        info['files'][i]['length'] = new
+    return tuple(new if k == i else s for k, s in enumerate(sizes))
 
 
 def run_impl(t, cp, cb):
@@ -111,26 +135,31 @@ def oracle(sizes, kind, on_disk, cb, res, calls):
 
 def run(ck, model_ok):
     ck.rule = ('layouts (1..6 files, single- and multi-file) x subsets of files missing / one byte short / one byte long x content path shapes (matching tree, extra '
-               'files present, single-file torrent at a directory, multi-file torrent at a file) x callback absent / passive / cancelling at each file; oracle: '
+               'files present, single-file torrent at a directory, multi-file torrent at a file) x callback absent / passive / cancelling at each file x object history (fresh, or '
+               'a recorded length edited in place after a first check on the same object); oracle: '
                'True iff all listed files have the recorded size, otherwise read/size error raised or reported per offending file, one call per listed file in '
                'order; whenever full verify() succeeds the size check succeeds; model compared; non-trivial = distinct cases')
     m = Model()
     pend = []
     with Scratch() as root:
-        for ci, (sizes, single, damage, kind, cb) in enumerate(gen_cases(ck)):
+        for ci, (sizes, single, damage, kind, cb, pre) in enumerate(gen_cases(ck)):
             d = os.path.join(root, 'c')
             os.makedirs(d)
             t, cp, on_disk = build(d, sizes, single, damage, kind)
+            orig_sizes = sizes
+            sizes = apply_pre(t, cp, sizes, single, pre)
             res, calls = run_impl(t, cp, cb)
-            ck.case((sizes, single, tuple(sorted(damage.items())), kind, cb))
+            ck.case((orig_sizes, single, tuple(sorted(damage.items())), kind, cb, pre))
+            if pre is not None:
+                ck.count('history:edited-after-a-first-check')
             ck.count('kind:' + kind)
             ck.count('cb:' + ('none' if cb is None else 'passive' if cb == 0 else 'cancel'))
-            case = {'sizes': list(sizes), 'single': single, 'damage': {str(k): v for k, v in damage.items()}, 'kind': kind, 'cb': cb}
+            case = {'sizes': list(orig_sizes), 'single': single, 'damage': {str(k): v for k, v in damage.items()}, 'kind': kind, 'cb': cb, 'pre': pre}
             v = oracle(sizes, kind, on_disk, cb, res, calls)
             if v:
                 ck.fail('oracle', v[0], case, 'C20', v[1][:300], v[1][:200])
             # agreement with full verification
-            if kind in ('file', 'extra'):
+            if kind in ('file', 'extra') and pre is None:
                 try:
                     full = t.verify(cp, threads=1)
                 except Exception:  # noqa -- only a successful verify() matters here (IndexError on damaged zero-length entries: known C02 finding)
@@ -162,6 +191,7 @@ def replay(rp):
     c = rp['case']
     with Scratch() as root:
         t, cp, on_disk = build(root, tuple(c['sizes']), c['single'], {int(k): v for k, v in c['damage'].items()}, c['kind'])
+        sizes = apply_pre(t, cp, tuple(c['sizes']), c['single'], tuple(c['pre']) if c.get('pre') else None)
         res, calls = run_impl(t, cp, c['cb'])
-        v = oracle(tuple(c['sizes']), c['kind'], on_disk, c['cb'], res, calls)
+        v = oracle(sizes, c['kind'], on_disk, c['cb'], res, calls)
     return v is None, v or 'exact'
